@@ -9,6 +9,8 @@ use crate::scenario::*;
 pub const NAME_POOL: &[&str] = &[
     "a", "b", "c", "aa", "ab", "Ab", "A", ".h", "a.b", "a b", "é", "日", "a*b", "[a]", "{a}",
     "a,b", "a\nb", "b.txt", "x.txt", "B", "a\\b", "1", "É", "-a", "a ", "~", "a:b", "e\u{301}",
+    // names that are not valid UTF-8 (raw bytes 0xFF / 0xFE, see scenario::BYTE_BASE)
+    "n\u{F8FF}", "\u{F8FE}x.txt", "a\u{F8FF}b",
     "aaaaaaaaaaaaaaaaaaaaaaaaaaaaaaaaaaaaaaaaaaaaaaaaaaaaaaaaaaaaaaaaaaaaaaaaaaaaaaaaaaaaaaaaaaaaaaaaaaaaaaaaaaaaaaaaaaaaaaaaaaaaaaaa",
     // 250 bytes (NAME_MAX is 255)
     "bcbcbcbcbcbcbcbcbcbcbcbcbcbcbcbcbcbcbcbcbcbcbcbcbcbcbcbcbcbcbcbcbcbcbcbcbcbcbcbcbcbcbcbcbcbcbcbcbcbcbcbcbcbcbcbcbcbcbcbcbcbcbcbcbcbcbcbcbcbcbcbcbcbcbcbcbcbcbcbcbcbcbcbcbcbcbcbcbcbcbcbcbcbcbcbcbcbcbcbcbcbcbcbcbcbcbcbcbcbcbcbcbcbcbcbcbcbcbcbcbcbcbcbcbcbcbc",
@@ -39,7 +41,8 @@ pub struct Gen<'a> {
 }
 
 fn esc(name: &str) -> String {
-    wax::escape(name).into_owned()
+    // (pattern text is text: an invalid byte in a name is matched through its lossy rendering)
+    wax::escape(&lossy(name)).into_owned()
 }
 
 impl<'a> Gen<'a> {
@@ -313,6 +316,7 @@ impl<'a> Gen<'a> {
 
     /// One glob component derived from a file name.
     pub fn component(&mut self, name: &str) -> String {
+        let name: &str = &lossy(name);
         let chars: Vec<char> = name.chars().collect();
         let w = self.rng.weighted(&[40, 14, 8, 5, 5, 3, 9, 3, 4, 4, 3, 2, 3]);
         match w {
@@ -598,7 +602,14 @@ impl<'a> Gen<'a> {
                 _ => (self.glob_expr(model, base), false),
             };
             let text = crate::exec::glob_text(&expr, rooted, "/dev/shm/waxsim.0/r0000000000000000");
-            match crate::exec::guarded(|| wax::Glob::new(&text).is_ok()) {
+            // Sampling restriction: the invariant prefix of a glob is joined to the base as a native
+            // path, and text cannot spell a name that is not valid UTF-8 (its lossy rendering names
+            // a different, non-existent file); such a name may be matched by a variant component,
+            // never by the literal prefix.
+            let ok = crate::exec::guarded(|| {
+                wax::Glob::new(&text).map_or(false, |g| !g.partition().0.to_string_lossy().contains('\u{FFFD}'))
+            });
+            match ok {
                 Ok(true) => return (expr, rooted),
                 Ok(false) => {},
                 Err(_) => {
